@@ -34,6 +34,12 @@ func NewEnv(prog *ssa.Program, specs *SpecSet) *Env {
 		e.pkgs[p.Pkg.Path()] = p
 	}
 	e.decls = append(e.decls, prelude)
+	// register the scalar heaps up front so that `cell(x)` / havoc-everything cover all of them
+	for _, k := range []types.BasicKind{types.Bool, types.Int, types.Int8, types.Int16, types.Int32, types.Int64, types.Uint, types.Uint8, types.Uint16, types.Uint32, types.Uint64, types.Uintptr, types.Float64, types.String, types.UnsafePointer} {
+		e.memHeap(types.Typ[k])
+	}
+	e.memHeap(types.NewSlice(types.Typ[types.Uint8]))
+	e.memHeap(types.NewInterfaceType(nil, nil))
 	return e
 }
 
